@@ -95,10 +95,14 @@ struct Chan {
   Pen pen;
   bool edge = false;      // the cursor "ran into" column 32 (see GUARD edge)
   bool need_pac = false;  // GUARD: cursor position after EOC is left to the decoder ("a PAC should follow")
+  // LENIENCY orphan-same-field: unk[k] = memory k may hold data this field carried before any channel of the field was
+  // selected (see RefDecoder::orphan); the channel's page is not judged until both memories were erased by a command
+  bool unk[2] = {false, false};
+  bool tainted() const { return unk[0] || unk[1]; }
   Cell (*act())[33] { return mem[mode == M_POPON ? disp ^ 1 : disp]; }
   bool row_empty(Cell (*m)[33], int r) const { for (int c = 1; c <= 32; c++) if (m[r][c].uc) return false; return true; }
   bool mem_empty(int k) const { for (int r = 0; r < 15; r++) for (int c = 1; c <= 32; c++) if (mem[k][r][c].uc) return false; return true; }
-  void erase(int k) { for (int r = 0; r < 15; r++) for (int c = 0; c <= 32; c++) mem[k][r][c] = Cell(); }
+  void erase(int k) { for (int r = 0; r < 15; r++) for (int c = 0; c <= 32; c++) mem[k][r][c] = Cell(); unk[k] = false; }
   void erase_row(Cell (*m)[33], int r) { for (int c = 0; c <= 32; c++) m[r][c] = Cell(); }
   void advance() { if (col < 32) col++; else edge = true; }
   void put(unsigned uc) {
@@ -146,11 +150,13 @@ struct RefDecoder {
         return e;
       }
       last[f][0] = c1; last[f][1] = c2;
+      bool unselected = cur[f] < 0;
       control(f, c1, c2, e);
+      if (unselected && cur[f] < 0) orphan(f);  // not one of RCL RU2-4 RDC TR RTD EOC
       return e;
     }
     last[f][0] = -1;
-    if (cur[f] < 0) return e;
+    if (cur[f] < 0) { orphan(f); return e; }
     Chan& c = ch[cur[f]];
     e.chan = cur[f];
     if (c.mode == M_NONE) return e;
@@ -163,6 +169,27 @@ struct RefDecoder {
       if (c.edge) cnt("ref_col32_overwrite");
     }
     return e;
+  }
+
+  // Data received on field f while no channel of that field is selected (decoder switched on, or tuned in, in the middle of
+  // a transmission).  The statement's reference is "a reference EIA-608 / 47 CFR 15.119 model": characters, PACs, mid-row
+  // and the other non-selecting codes carry no channel / mode of their own - they act on the channel and style chosen by
+  // the last RCL / RU2-4 / RDC / TR / RTD / EOC of THEIR field (15.119(f): "the decoder ... remains in that mode until
+  // another mode command"; EIA-608: each field is an independent data stream, CC1 CC2 T1 T2 on field 1, CC3 CC4 T3 T4 on
+  // field 2), so before the first such command of the field they belong to no known channel and the model discards them.
+  // In particular they can never reach a channel of the OTHER field: those pages stay strictly compared.
+  // LENIENCY orphan-same-field: what a decoder does with such data on the channels of the SAME field is not spelled out
+  // (DESIGN.md C08 soft spot (ii): "characters received before any mode command: ignored or shown"): the four channels of
+  // field f are marked - memories unknown until erased by a command (EDM+ENM, a style change that erases, TR), pen
+  // attributes unknown until set (PAC / colour code), cursor unknown until a PAC (encoder guard need_pac).
+  void orphan(int f) {
+    cnt("ref_orphan_pair");
+    for (int k = 0; k < 4; k++) {
+      Chan& c = ch[(k & 2 ? 4 : 0) + f * 2 + (k & 1)];
+      c.unk[0] = c.unk[1] = true;
+      c.pen.adc = c.pen.bdc = true;
+      if (!c.text) c.need_pac = true;
+    }
   }
 
   void control(int f, int c1, int c2, Effect& e) {
@@ -301,7 +328,7 @@ struct RefDecoder {
           }
           c.depth = n;
         } else if (c.mode == M_NONE) {
-          c.mode = M_ROLLUP; c.depth = n; c.row = 14; c.col = 1; c.edge = false;
+          c.mode = M_ROLLUP; c.depth = n; c.row = 14; c.col = 1; c.edge = false; c.need_pac = false;
         } else {  // from pop-on / paint-on: (f)(1)(x) both memories are erased, (f)(1)(ii) base row 15, column 1
           if (!c.mem_empty(c.disp)) e.sync = true;
           c.erase(0); c.erase(1);
@@ -317,6 +344,7 @@ struct RefDecoder {
       case 10: {  // TR: EIA-608 7.4 clears the text memory, cursor to the upper left
         Chan& c = ch[txt]; cur[f] = txt; e.chan = txt; e.what = "tr";
         c.erase(c.disp); c.row = 0; c.col = 1; c.edge = false;
+        c.unk[0] = c.unk[1] = false;  // a text channel has one memory
         e.sync = true;
         return;
       }
@@ -434,6 +462,80 @@ struct C08 : World {
     return mk(t, "pac", {row, style, (int64_t)r.below(2)});
   }
 
+  // one caption (pop-on / roll-up / paint-on) or one text transmission of channel t
+  void gen_caption(Rng& r, Plan& p, int t, unsigned feat) {
+    bool text = t >= 4;
+    if (text) {
+      p.ops.push_back(mk(t, "mode", {r.chance(1, 3) ? 1 : 0, (int64_t)r.below(2)}));
+      int rows = 1 + (int)r.below(r.chance(1, 5) ? 20 : 5);
+      for (int i = 0; i < rows; i++) {
+        if ((feat & FT_ATTR) && r.chance(1, 4)) p.ops.push_back(mk(t, "pac", {(int64_t)r.below(15), 0x10 | ((int64_t)r.below(16)), (int64_t)r.below(2)}));
+        gen_text(r, p, t, feat, 3);
+        p.ops.push_back(mk(t, "cr", {(int64_t)r.below(2)}));
+      }
+      return;
+    }
+    std::vector<int> styles;
+    if (feat & FT_POPON) styles.push_back(0);
+    if (feat & FT_ROLLUP) styles.push_back(1);
+    if (feat & FT_PAINTON) styles.push_back(2);
+    if (styles.empty()) styles.push_back(0);
+    int style = styles[r.below(styles.size())];
+    if (style == 0) {  // pop-on: RCL [ENM] (PAC text)* [EDM] EOC
+      p.ops.push_back(mk(t, "mode", {0, (int64_t)r.below(2)}));
+      if ((feat & FT_ERASE) && r.chance(1, 2)) p.ops.push_back(mk(t, "enm", {(int64_t)r.below(2)}));
+      int rows = 1 + (int)r.below(4);
+      int row0 = (int)r.below(15);
+      for (int i = 0; i < rows; i++) {
+        p.ops.push_back(gen_pac(r, t, feat, r.chance(1, 4) ? (int)r.below(15) : (row0 + i) % 15));
+        gen_rowstart_edit(r, p, t, feat);
+        gen_text(r, p, t, feat, r.chance(1, 8) ? 9 : 3);
+      }
+      if ((feat & FT_ERASE) && r.chance(1, 3)) p.ops.push_back(mk(t, "edm", {(int64_t)r.below(2)}));
+      p.ops.push_back(mk(t, "eoc", {(int64_t)r.below(2)}));
+      if ((feat & FT_ERASE) && r.chance(1, 6)) p.ops.push_back(mk(t, "edm", {(int64_t)r.below(2)}));
+    } else if (style == 1) {  // roll-up: RUn PAC (text CR)*
+      p.ops.push_back(mk(t, "mode", {1 + (int64_t)r.below(3), (int64_t)r.below(2)}));
+      int rows = 1 + (int)r.below(6);
+      for (int i = 0; i < rows; i++) {
+        if (i == 0 || r.chance(1, 3)) p.ops.push_back(gen_pac(r, t, feat, r.chance(1, 3) ? (int)r.below(5) : r.chance(1, 2) ? 14 : (int)r.below(15)));
+        gen_text(r, p, t, feat, r.chance(1, 8) ? 9 : 3);
+        p.ops.push_back(mk(t, "cr", {(int64_t)r.below(2)}));
+        if (r.chance(1, 8)) p.ops.push_back(mk(t, "mode", {1 + (int64_t)r.below(3), (int64_t)r.below(2)}));
+      }
+      if ((feat & FT_ERASE) && r.chance(1, 3)) p.ops.push_back(mk(t, "edm", {(int64_t)r.below(2)}));
+    } else {  // paint-on: RDC (PAC text)*
+      p.ops.push_back(mk(t, "mode", {4, (int64_t)r.below(2)}));
+      int rows = 1 + (int)r.below(4);
+      int prow = -1;
+      for (int i = 0; i < rows; i++) {
+        int row = (prow >= 0 && r.chance(1, 3)) ? prow : (int)r.below(15);  // revisit a row: paint over / DER into existing text
+        prow = row;
+        p.ops.push_back(gen_pac(r, t, feat, row));
+        gen_rowstart_edit(r, p, t, feat);
+        gen_text(r, p, t, feat, r.chance(1, 8) ? 9 : 3);
+      }
+      if ((feat & FT_ERASE) && r.chance(1, 3)) p.ops.push_back(mk(t, "edm", {(int64_t)r.below(2)}));
+    }
+    if ((feat & FT_CHAOS) && r.chance(1, 2)) {  // unstructured tail: any operation anywhere
+      int n = 1 + (int)r.below(8);
+      for (int i = 0; i < n; i++) {
+        switch (r.below(10)) {
+          case 0: p.ops.push_back(mk(t, "cr", {(int64_t)r.below(2)})); break;
+          case 1: p.ops.push_back(gen_pac(r, t, feat, (int)r.below(15))); break;
+          case 2: p.ops.push_back(mk(t, "mode", {(int64_t)r.below(5), (int64_t)r.below(2)})); break;
+          case 3: p.ops.push_back(mk(t, "eoc", {(int64_t)r.below(2)})); break;
+          case 4: if (feat & FT_ERASE) p.ops.push_back(mk(t, r.chance(1, 2) ? "edm" : "enm", {(int64_t)r.below(2)})); break;
+          case 5: if (feat & FT_EDIT) p.ops.push_back(mk(t, r.chance(1, 2) ? "bs" : "der", {(int64_t)r.below(2)})); break;
+          case 6: if (feat & FT_EDIT) p.ops.push_back(mk(t, "tab", {1 + (int64_t)r.below(3), (int64_t)r.below(2)})); break;
+          case 7: p.ops.push_back(mk(t, "idle", {1 + (int64_t)r.below(4)})); break;
+          default: gen_text(r, p, t, feat, 2); break;
+        }
+      }
+    }
+    if (r.chance(1, 5)) p.ops.push_back(mk(t, "idle", {1 + (int64_t)r.below(5)}));
+  }
+
   Plan generate(uint64_t seed, const std::string& tier) override {
     Plan p; p.world = name(); p.seed = seed;
     Rng r(seed, "plan");
@@ -463,81 +565,36 @@ struct C08 : World {
       bool dup = false; for (int x : chans) if (x == c) dup = true;
       if (!dup) chans.push_back(c);
     }
+    // Workload dimension "joined mid-stream" (own random stream: the rest of the plan is what it was without it).  The
+    // statement quantifies over "all command/character sequences over all eight channels and both fields"; a decoder is
+    // switched on in the middle of a transmission as a rule, so a field's sequence may well begin with the tail of a
+    // caption whose RCL / RUx / RDC / TR / RTD went out before the decoder existed.  joined bit f: every channel of field
+    // f+1 starts with such a tail (a caption generated as usual, cut at a random point, the part before the cut not sent),
+    // and the first sender of the field does not repeat its resume code.  The other field is made sure to carry a channel
+    // of its own, so that the tail arrives while the other field's channels are selected and being written.
+    Rng rj(seed, "join");
+    int joined = rj.chance(3, 10) ? 1 + (int)rj.below(3) : 0;
+    if (const char* e = getenv("C08_JOIN")) joined = atoi(e) & 3;  // development aid
+    if (joined) {
+      for (int f = 0; f < 2; f++) {
+        bool have = false; for (int x : chans) if (((x >> 1) & 1) == f) have = true;
+        if (!have) chans.push_back((rj.chance(1, 4) ? 4 : 0) + f * 2 + (int)rj.below(2));
+      }
+      for (int t : chans) {
+        if (!((joined >> ((t >> 1) & 1)) & 1)) continue;
+        p.ops.push_back(mk(t, "join", {}));
+        int nidle = (int)rj.below(4);  // the other field gets ahead
+        for (int i = 0; i < nidle; i++) p.ops.push_back(mk(t, "idle", {1 + (int64_t)rj.below(7)}));
+        Plan tail; gen_caption(rj, tail, t, feat | (rj.chance(1, 2) ? FT_ATTR | FT_SPECIAL | FT_EDIT | FT_ERASE : 0));
+        size_t cut = 1 + (size_t)rj.below(tail.ops.size() > 1 ? tail.ops.size() - 1 : 1);  // at least the leading mode command is not seen
+        if (tail.ops.size() > cut + 12 && rj.chance(2, 3)) cut = tail.ops.size() - 1 - (size_t)rj.below(12);  // mostly short tails
+        for (size_t i = cut; i < tail.ops.size(); i++) p.ops.push_back(tail.ops[i]);
+      }
+    }
     int scale = tier == "thorough" ? 2 : 1;
     for (int t : chans) {
-      bool text = t >= 4;
       int ncap = (1 + (int)r.below(4)) * scale;
-      for (int k = 0; k < ncap; k++) {
-        if (text) {
-          p.ops.push_back(mk(t, "mode", {r.chance(1, 3) ? 1 : 0, (int64_t)r.below(2)}));
-          int rows = 1 + (int)r.below(r.chance(1, 5) ? 20 : 5);
-          for (int i = 0; i < rows; i++) {
-            if ((feat & FT_ATTR) && r.chance(1, 4)) p.ops.push_back(mk(t, "pac", {(int64_t)r.below(15), 0x10 | ((int64_t)r.below(16)), (int64_t)r.below(2)}));
-            gen_text(r, p, t, feat, 3);
-            p.ops.push_back(mk(t, "cr", {(int64_t)r.below(2)}));
-          }
-          continue;
-        }
-        std::vector<int> styles;
-        if (feat & FT_POPON) styles.push_back(0);
-        if (feat & FT_ROLLUP) styles.push_back(1);
-        if (feat & FT_PAINTON) styles.push_back(2);
-        if (styles.empty()) styles.push_back(0);
-        int style = styles[r.below(styles.size())];
-        if (style == 0) {  // pop-on: RCL [ENM] (PAC text)* [EDM] EOC
-          p.ops.push_back(mk(t, "mode", {0, (int64_t)r.below(2)}));
-          if ((feat & FT_ERASE) && r.chance(1, 2)) p.ops.push_back(mk(t, "enm", {(int64_t)r.below(2)}));
-          int rows = 1 + (int)r.below(4);
-          int row0 = (int)r.below(15);
-          for (int i = 0; i < rows; i++) {
-            p.ops.push_back(gen_pac(r, t, feat, r.chance(1, 4) ? (int)r.below(15) : (row0 + i) % 15));
-            gen_rowstart_edit(r, p, t, feat);
-            gen_text(r, p, t, feat, r.chance(1, 8) ? 9 : 3);
-          }
-          if ((feat & FT_ERASE) && r.chance(1, 3)) p.ops.push_back(mk(t, "edm", {(int64_t)r.below(2)}));
-          p.ops.push_back(mk(t, "eoc", {(int64_t)r.below(2)}));
-          if ((feat & FT_ERASE) && r.chance(1, 6)) p.ops.push_back(mk(t, "edm", {(int64_t)r.below(2)}));
-        } else if (style == 1) {  // roll-up: RUn PAC (text CR)*
-          p.ops.push_back(mk(t, "mode", {1 + (int64_t)r.below(3), (int64_t)r.below(2)}));
-          int rows = 1 + (int)r.below(6);
-          for (int i = 0; i < rows; i++) {
-            if (i == 0 || r.chance(1, 3)) p.ops.push_back(gen_pac(r, t, feat, r.chance(1, 3) ? (int)r.below(5) : r.chance(1, 2) ? 14 : (int)r.below(15)));
-            gen_text(r, p, t, feat, r.chance(1, 8) ? 9 : 3);
-            p.ops.push_back(mk(t, "cr", {(int64_t)r.below(2)}));
-            if (r.chance(1, 8)) p.ops.push_back(mk(t, "mode", {1 + (int64_t)r.below(3), (int64_t)r.below(2)}));
-          }
-          if ((feat & FT_ERASE) && r.chance(1, 3)) p.ops.push_back(mk(t, "edm", {(int64_t)r.below(2)}));
-        } else {  // paint-on: RDC (PAC text)*
-          p.ops.push_back(mk(t, "mode", {4, (int64_t)r.below(2)}));
-          int rows = 1 + (int)r.below(4);
-          int prow = -1;
-          for (int i = 0; i < rows; i++) {
-            int row = (prow >= 0 && r.chance(1, 3)) ? prow : (int)r.below(15);  // revisit a row: paint over / DER into existing text
-            prow = row;
-            p.ops.push_back(gen_pac(r, t, feat, row));
-            gen_rowstart_edit(r, p, t, feat);
-            gen_text(r, p, t, feat, r.chance(1, 8) ? 9 : 3);
-          }
-          if ((feat & FT_ERASE) && r.chance(1, 3)) p.ops.push_back(mk(t, "edm", {(int64_t)r.below(2)}));
-        }
-        if ((feat & FT_CHAOS) && r.chance(1, 2)) {  // unstructured tail: any operation anywhere
-          int n = 1 + (int)r.below(8);
-          for (int i = 0; i < n; i++) {
-            switch (r.below(10)) {
-              case 0: p.ops.push_back(mk(t, "cr", {(int64_t)r.below(2)})); break;
-              case 1: p.ops.push_back(gen_pac(r, t, feat, (int)r.below(15))); break;
-              case 2: p.ops.push_back(mk(t, "mode", {(int64_t)r.below(5), (int64_t)r.below(2)})); break;
-              case 3: p.ops.push_back(mk(t, "eoc", {(int64_t)r.below(2)})); break;
-              case 4: if (feat & FT_ERASE) p.ops.push_back(mk(t, r.chance(1, 2) ? "edm" : "enm", {(int64_t)r.below(2)})); break;
-              case 5: if (feat & FT_EDIT) p.ops.push_back(mk(t, r.chance(1, 2) ? "bs" : "der", {(int64_t)r.below(2)})); break;
-              case 6: if (feat & FT_EDIT) p.ops.push_back(mk(t, "tab", {1 + (int64_t)r.below(3), (int64_t)r.below(2)})); break;
-              case 7: p.ops.push_back(mk(t, "idle", {1 + (int64_t)r.below(4)})); break;
-              default: gen_text(r, p, t, feat, 2); break;
-            }
-          }
-        }
-        if (r.chance(1, 5)) p.ops.push_back(mk(t, "idle", {1 + (int64_t)r.below(5)}));
-      }
+      for (int k = 0; k < ncap; k++) gen_caption(r, p, t, feat);
     }
     return p;
   }
@@ -600,6 +657,11 @@ struct C08 : World {
     St& s = *g;
     Chan& c = s.ref.ch[chn];
     Cell(*m)[33] = c.mem[c.disp];
+    if (c.tainted()) {  // LENIENCY orphan-same-field (RefDecoder::orphan): page and event clause not judged until the memories were erased
+      s.ctx->count("lenient_orphan_same_field");
+      s.have_proj[chn] = false;
+      return true;
+    }
     std::string cls = std::string("oracle:page-") + mode_name[c.mode] + "-" + e.what;
     if (pg.rows != 15 || pg.columns != 34 || pg.pgno != chn + 1) {
       s.ctx->fail("oracle:page-geometry", "CC page %d fetched with pgno=%d rows=%d columns=%d", chn + 1, pg.pgno, pg.rows, pg.columns);
@@ -754,6 +816,14 @@ struct C08 : World {
     if (s.ctx->failed) return;
     s.slot[f][0] = b0; s.slot[f][1] = b1; s.full[f] = true;
     Effect e = s.ref.feed(f, b0, b1);
+    if (s.ref.cur[f] < 0 && ((b0 | b1) & 0x7F)) {  // the pair belongs to no known channel
+      s.ctx->count("sched_orphan_pair");
+      int o = s.ref.cur[f ^ 1];
+      if (o >= 0 && s.ref.ch[o].mode != M_NONE) {
+        s.ctx->count("probe_orphan_while_other_field_active");
+        if ((b0 & 0x7F) >= 0x20) s.ctx->count("probe_orphan_text_while_other_field_active");
+      }
+    }
     if (!strcmp(e.what, "dup")) { Effect d = s.eff_prev[f]; e = d; }
     s.eff[f] = e; s.eff_prev[f] = e;
     s.suppress[f] = suppress_compare;
@@ -817,12 +887,21 @@ struct C08 : World {
     for (int t = 0; t < 8; t++) st.active[t] = !per[t].empty();
 
     int resumes = 0;
+    bool joined[8] = {false};  // "join" op: the decoder came into being while channel t was in the middle of a transmission
+    // the field of channel t has no selected channel yet: what is sent now belongs to no known channel (RefDecoder::orphan)
+    auto unselected = [&](int t) { return st.ref.cur[(t >> 1) & 1] < 0; };
     // one control code of channel t (resume code first when the field's sender changed)
     auto chan_c1 = [&](int t, int base) { return base | ((t & 1) ? 8 : 0); };
     auto misc_c1 = [&](int t) { return chan_c1(t, (t & 2) ? 0x15 : 0x14); };  // EIA-608: field-2 miscellaneous codes are 15/1D
     auto resume = [&](int t) {
       int f = (t >> 1) & 1;
       if (st.sender[f] == t) return;
+      if (st.sender[f] < 0 && joined[t] && st.ref.cur[f] < 0) {
+        // first sender of the field since the decoder exists, and it was in the middle of a transmission then: its
+        // resume code went out before the decoder could see it and is not repeated
+        st.sender[f] = t; ctx.count("sched_join_midstream");
+        return;
+      }
       Chan& c = st.ref.ch[t];
       int code;
       if (t >= 4) code = 0x2B;  // RTD
@@ -853,6 +932,7 @@ struct C08 : World {
           if (ctx.failed) return;
           const std::string& k = op->kind;
           bool dbl = op->arg(k == "pac" ? 2 : (k == "mid" || k == "spc" || k == "tab" || k == "bga" || k == "mode") ? 1 : 0) & 1;
+          if (k == "join") { joined[t] = true; continue; }
           if (k == "idle") {
             int n = (int)(((op->arg(0) % 8) + 8) % 8);
             for (int i = 0; i < n && !ctx.failed; i++) {  // the channel keeps its field but sends fillers
@@ -870,7 +950,7 @@ struct C08 : World {
               // GUARD style-switch: caption.c keeps one working copy instead of the standard's two memories while in roll-up /
               // paint-on style (reported as a finding); the encoder clears what that design cannot carry across a style change,
               // as captioning practice does (ENM after RCL, EDM before RDC).
-              if (target == M_PAINTON && (!c.mem_empty(0) || !c.mem_empty(1))) {
+              if (target == M_PAINTON && (!c.mem_empty(0) || !c.mem_empty(1) || c.tainted())) {
                 if (c.mode == M_POPON) ctl(t, misc_c1(t), 0x2E, dbl);
                 ctl(t, misc_c1(t), 0x2C, dbl);
                 guard("style_switch_erase");
@@ -904,7 +984,7 @@ struct C08 : World {
             ctl(t, chan_c1(t, pac_c1[row]), pac_hi[row] | lo5, dbl);
             continue;
           }
-          if (c.need_pac && hygiene) { guard("need_pac_after_eoc"); continue; }  // GUARD: cursor after EOC is the decoder's choice
+          if (c.need_pac && hygiene && !unselected(t)) { guard("need_pac_after_eoc"); continue; }  // GUARD: cursor after EOC is the decoder's choice
           if (k == "txt") {
             std::string s = op->s;
             for (auto& chx : s) { int x = (unsigned char)chx & 0x7F; if (x < 0x20) x = 0x20 + (x & 0x1F); chx = (char)x; }
@@ -940,7 +1020,7 @@ struct C08 : World {
           }
           if (k == "bga") {
             // GUARD bga: EIA-608 6.2: the encoder precedes a background attribute by a space which the attribute replaces
-            if (c.mode == M_NONE) continue;
+            if (c.mode == M_NONE && !unselected(t)) continue;
             if (c.edge || c.col >= 31) { guard("bga_at_margin"); continue; }
             resume(t);
             place(f, 0x20, 0, false);
